@@ -48,22 +48,7 @@ let n_rule_components (a_sp : nat list) (pas : (nat list * nat list) list) : int
   let mentioned = List.sort_uniq compare (List.concat ks) in
   components n ks - (n - List.length mentioned)
 
-(* ---------- exact comparison  x + sqrt p <= y + sqrt q  (p, q >= 0) ---------- *)
-let q_sq a = q_mul a a
-let q_four = q_of_int 4
-let sqrt_sum_le x p y qq =
-  let d = q_sub y x in
-  let s = q_add p qq in
-  if q_le p qq then begin
-    if q_le q_zero d then true
-    else let e2 = q_sq d in
-      let t = q_sub s e2 in
-      q_le q_zero t && q_le (q_mul q_four (q_mul p qq)) (q_sq t)
-  end else begin
-    if q_le d q_zero then false
-    else let t = q_sub s (q_sq d) in
-      q_le t q_zero || q_le (q_sq t) (q_mul q_four (q_mul p qq))
-  end
+(* the exact comparison  x + sqrt p <= y + sqrt q  is Model.sqrt_sum_le (Spec.v, proved in ProofsSqrt.v) *)
 
 let judge _id (c : cursor) (r : cursor) : bool * string =
   let kind = next c in
@@ -129,6 +114,35 @@ let judge _id (c : cursor) (r : cursor) : bool * string =
       if nontrivial_rules rs then nt := true
     done;
     (!nt, kind)
+  | "vemix" | "lsmix" | "mpmix" | "rilsmix" ->
+    (* one maximiser object over a sequence of different action spaces *)
+    let site = (match kind with "vemix" -> "VariableElimination::operator()" | "lsmix" -> "LocalSearch::operator()"
+                              | "mpmix" -> "MaxPlus::operator()" | _ -> "ReusingIterativeLocalSearch::operator()") in
+    let nseg = next_int c in
+    let nt = ref false in
+    for s = 1 to nseg do
+      let a_s = next_nats c in
+      let rs = next_rules c in
+      let i_act = next_nats r in let i_val = next_q r in
+      let clause = if kind = "vemix" then "ve_optimal" else "approx_reports_true_value" in
+      if not (inrb a_s i_act) then oracle_fail clause site (Printf.sprintf "segment %d: action out of range %s" s (str_act i_act));
+      if not (q_eq i_val (payoff rs i_act)) then
+        oracle_fail clause site (Printf.sprintf "segment %d: reported %s, payoff of %s is %s" s (string_of_q i_val) (str_act i_act) (string_of_q (payoff rs i_act)));
+      if kind = "vemix" then begin
+        if not (is_upper rs a_s i_val) then
+          oracle_fail clause site (Printf.sprintf "segment %d: value %s is not the maximum (opt = %s)" s (string_of_q i_val) (string_of_q (opt a_s rs)));
+        (match ve a_s rs (heur_order a_s (make_graph a_s rs)) with
+         | Some (_, m_val) -> if not (q_eq m_val i_val) then disagree "ve_value" site (Printf.sprintf "segment %d: model %s impl %s" s (string_of_q m_val) (string_of_q i_val))
+         | None -> disagree "ve_model" site "model refuses")
+      end else begin
+        if not (q_le i_val (opt a_s rs)) then oracle_fail "approx_le_opt" site (Printf.sprintf "segment %d: reported %s exceeds opt" s (string_of_q i_val));
+        let m_val = evaluate_graph a_s (ls_update a_s (ls_make a_s rs) rs) i_act in
+        if not (q_eq m_val i_val) then disagree "evaluate_graph" "LocalSearch::evaluateGraph" (Printf.sprintf "segment %d: model %s impl %s" s (string_of_q m_val) (string_of_q i_val))
+      end;
+      if nontrivial_rules rs then nt := true
+    done;
+    ignore a_sp;
+    (!nt, kind)
   | "move" ->
     let site = "MultiObjectiveVariableElimination::operator()" in
     let nobj = next_int c in
@@ -173,7 +187,7 @@ let judge _id (c : cursor) (r : cursor) : bool * string =
       if mo <> [] then List.iter (fun (a, v) ->
           if not (List.exists (fun (vs, _, _) -> veq v vs) ents) then oracle_fail clause site
               (Printf.sprintf "set %d: Pareto-optimal vector (%s) of action %s is missing from the result" s (str_qs v) (str_act a))) front in
-      if clause = "move_pareto" then (check_o (); check_c ()) else (check_c (); check_o ());
+      check_o (); check_c ();
       if List.length mo >= 2 then nt := true;
       tag := if complete a_sp pas then "move-complete" else "move-incomplete"
     done;
